@@ -185,7 +185,8 @@ def build():
                ensures=["(result == R_OK) == child_ty(type_, allow_sequence)"],
                note="OK exactly for the statement's child shapes; a TypeError (issubclass on a non-class) may escape only for an annotation that is not a child shape, and is mapped to OTHER by the public wrapper"))
     A(Contract(f"{TM_}:_is_valid_child_field_type", variant_of="callee", params={"type_": "Ty", "node_base_type": "CheckType", "allow_sequence": "bool"}, returns="Reason",
-               props=P, trusted=True, trusted_reason="proved above (recursion: induction hypothesis)", may_raise=["TypeError"], exc_ensures=["not child_ty(type_, allow_sequence)"],
+               props=P, trusted=True, trusted_reason="proved above (recursion: induction hypothesis; its precondition is asserted at every recursive call)",
+               requires=["wf_ty(type_)"], may_raise=["TypeError"], exc_ensures=["not child_ty(type_, allow_sequence)"],
                ensures=["(result == R_OK) == child_ty(type_, allow_sequence)"]))
     reg.contracts[f"{TM_}:_is_valid_child_field_type#callee"].fn = f"{TM_}:_is_valid_child_field_type"
     escapes = z3.Function("type_error_escapes", TY.z3(), z3.BoolSort())
@@ -498,4 +499,5 @@ def build():
     lem.append(Lemma("unresolved-prefix", [("base", ur_base), ("step", ur_step)], P))
     world.trusted_notes.append("annotation model: a field's raw annotation is None | a string | a type (raw_kind); get_type_hints(cls).get(name) is an uninterpreted partial function and may raise NameError")
     world.trusted_notes.append("process_node_fields iterates the item list of get_field_types' dict (field_types_of); Field objects of one class are distinct (lemma exactly-one-class assumes it)")
+    world.trusted_notes.append('wf (the shape facts about annotations: kind range, argument counts, collection / mutability flags) is assumed of EVERY annotation object, nested ones included: the opaque induction-hypothesis predicates over the members of a union / tuple (all_non_none_members_are_nodes, all_child_ty_noseq, all_prop_ok, any_mentions) stand for the recursive calls on those members')
     return world, lib, reg, lem
